@@ -263,6 +263,52 @@ pub fn storage_free_program(r: &mut Rng) -> Vec<u8> {
     assemble(&bs, shape)
 }
 
+/// self-referential storage dataflow: a container element receives what was loaded from the
+/// container's own base slot (or the other way round), so the unified types are cyclic
+pub fn self_ref_program(r: &mut Rng) -> Vec<u8> {
+    let mut used = vec![];
+    let n = 1 + r.below(3);
+    let mut bs: Vec<Vec<u8>> = vec![];
+    for _ in 0..n {
+        let slot = random_slot(r, &mut used);
+        let container = Var {
+            slot: slot.clone(),
+            kind: match r.below(3) {
+                0 => Kind::Dyn,
+                1 => Kind::Map(vec![r.chance(1, 2)]),
+                _ => Kind::Map((0..2 + r.below(2)).map(|_| r.chance(1, 2)).collect()),
+            },
+            read: true,
+            write: true,
+        };
+        let base = Var { slot, kind: Kind::Word, read: true, write: true };
+        let (src, dst) = if r.chance(2, 3) { (&base, &container) } else { (&container, &base) };
+        let mut a = vm::Asm::new(0);
+        push_key(&mut a, r, src);
+        a.op(0x54);
+        if r.chance(1, 4) {
+            a.push_word(&[0xff; 20]);
+            a.op(0x16);
+        }
+        push_key(&mut a, r, dst);
+        a.op(0x55);
+        a.op(0x00);
+        bs.push(a.bytes);
+        if r.chance(1, 2) {
+            // and an element copied to another element of the same container
+            let mut a = vm::Asm::new(0);
+            push_key(&mut a, r, &container);
+            a.op(0x54);
+            push_key(&mut a, r, &container);
+            a.op(0x55);
+            a.op(0x00);
+            bs.push(a.bytes);
+        }
+    }
+    let shape = r.below(2);
+    assemble(&bs, shape)
+}
+
 /// one small motif repeated many times in straight-line code: values, keys and nesting that grow
 /// with the length of the program (native-stack depth, tree size, storage history length)
 pub fn repeated_motif_program(r: &mut Rng) -> Vec<u8> {
@@ -424,7 +470,14 @@ pub fn mask_chain_program(r: &mut Rng) -> Vec<u8> {
 pub fn random_slot(r: &mut Rng, used: &mut Vec<Vec<u8>>) -> Vec<u8> {
     loop {
         let mut s = vec![0u8; 32];
-        match r.below(8) {
+        match r.below(9) {
+            8 => {
+                // a slot number whose bytes read as text (what the proxy-slot pass looks for in hashes)
+                let n = 1 + r.below(31);
+                for b in s.iter_mut().take(n) {
+                    *b = 0x61 + r.below(26) as u8;
+                }
+            }
             0..=4 => s[31] = r.below(100) as u8,
             5 => {
                 s[30] = 1 + r.below(30) as u8;
@@ -509,7 +562,7 @@ pub fn spec_text(vars: &[Var]) -> String {
 
 pub fn analyse(bytes: &[u8]) -> String {
     let wd: Rc<dyn storage_layout_extractor::watchdog::Watchdog> = LazyWatchdog.in_rc();
-    util::guarded(|| pipeline::run("natural", CFG, bytes, wd))
+    util::guarded(|| pipeline::run("sorted", CFG, bytes, wd))
 }
 
 pub fn eval_idiom(payload: &str) -> String {
